@@ -281,13 +281,20 @@ pub mod read {
             if read_more(&mut buffer, &mut reader, read, max_len, timeout).await? == 0 {
                 break;
             }
-            if !(utils::valid_method(&buffer) || utils::valid_version(&buffer)) {
+            // the longest method or version we look for is 9 bytes;
+            // with fewer bytes, the rest of it may just not have arrived yet
+            if buffer.len() >= 9
+                && !(utils::valid_method(&buffer) || utils::valid_version(&buffer))
+            {
                 return Err(Error::Syntax);
             }
 
             if contains_two_newlines(&buffer) {
                 break;
             }
+        }
+        if !(utils::valid_method(&buffer) || utils::valid_version(&buffer)) {
+            return Err(Error::Syntax);
         }
         Ok(buffer.freeze())
     }
